@@ -4,13 +4,16 @@
 set -u
 cd /verif
 OUT=/verif/seeded/RESULTS.md
+PAT="${1:-S}"
 git -C /repo diff --quiet || { echo "/repo has uncommitted changes"; exit 3; }
-echo "| seeded change | property | check exit | violations reported (monitors) |" > $OUT
-echo "|---|---|---|---|" >> $OUT
-for d in seeded/S*/; do
+if [ "$PAT" = "S" ]; then
+  echo "| seeded change | property | check exit | violations reported (monitors) |" > $OUT
+  echo "|---|---|---|---|" >> $OUT
+fi
+for d in seeded/${PAT}*/; do
   name=$(basename $d)
   prop=$(python3 -c "import json,sys; print(json.load(open('$d/meta.json'))['breaks_property'])")
-  if ! git -C /repo apply "$d/patch.diff" 2>/dev/null; then echo "| $name | $prop | patch does not apply | |" >> $OUT; continue; fi
+  if ! git -C /repo apply "/verif/$d/patch.diff" 2>/dev/null; then echo "| $name | $prop | patch does not apply | |" >> $OUT; continue; fi
   ./run check $prop --tier quick > /tmp/seedreg.$name.log 2>&1
   rc=$?
   git -C /repo checkout -- .
